@@ -202,6 +202,11 @@ func (self *Pipeline) format(printer *printer) {
 
 func (self *CallStm) format(printer *printer, prefix string) {
 	printer.printComments(&self.Node, prefix)
+	if self.Bindings != nil && len(self.Bindings.List) == 0 {
+		// Comments between the call keyword and an empty argument list
+		// have no binding to go with.
+		printer.printComments(self.Bindings.getNode(), prefix)
+	}
 	printer.mustWriteString(prefix)
 	if self.CallMode() != ModeSingleCall {
 		printer.mustWriteString("map ")
